@@ -5,7 +5,10 @@ import os, sys, json, subprocess, shutil, tempfile
 V = os.path.dirname(os.path.dirname(os.path.abspath(__file__)))
 REPO = os.environ.get('VERIF_REPO', '/repo')
 ok = True
+ONLY = set(sys.argv[1:])
 for d in sorted(os.listdir(os.path.join(V, 'seeded'))):
+    if ONLY and d not in ONLY:
+        continue
     dd = os.path.join(V, 'seeded', d)
     if not os.path.exists(os.path.join(dd, 'meta.json')):
         continue
@@ -18,7 +21,7 @@ for d in sorted(os.listdir(os.path.join(V, 'seeded'))):
             print('%-8s patch does not apply' % d)
             ok = False
             continue
-        args = [sys.executable, os.path.join(V, 'proofs', 'check.py')]
+        args = [sys.executable, os.path.join(V, 'proofs', 'check.py'), '--jobs', os.environ.get('VERIF_JOBS', '4')]
         for u in meta['check_units_expected_to_fail']:
             args += ['--unit', u]
         out = subprocess.run(args, env=dict(os.environ, VERIF_REPO=tmp), stdout=subprocess.PIPE, stderr=subprocess.STDOUT, text=True).stdout
